@@ -22,7 +22,13 @@ if ALT:
     HARNESS = os.path.join(OUT, "harness")
     EVIDENCE = os.path.join(OUT, "evidence")
     os.makedirs(OUT, exist_ok=True)
-    subprocess.run(["rsync", "-a", "--delete", "--exclude", ".lia.cache", os.path.join(ROOT, "coq") + "/", COQ + "/"], check=True)
+    # copy the coq tree under the main tree's coq lock: a check running in /verif at the same time may be
+    # rebuilding .vo files, and a half-written copy makes theorem obligations "break" for that one run
+    os.makedirs(os.path.join(ROOT, "out"), exist_ok=True)
+    with open(os.path.join(ROOT, "out", ".coq.lock"), "w") as _lf:
+        fcntl.flock(_lf, fcntl.LOCK_EX)
+        subprocess.run(["rsync", "-a", "--delete", "--exclude", ".lia.cache", os.path.join(ROOT, "coq") + "/", COQ + "/"], check=True)
+        fcntl.flock(_lf, fcntl.LOCK_UN)
     subprocess.run(["rsync", "-a", "--delete", os.path.join(ROOT, "harness") + "/", HARNESS + "/"], check=True)
     _gm = os.path.join(HARNESS, "go.mod")
     _txt = open(_gm).read().replace("=> /repo", "=> " + REPO)
@@ -421,7 +427,10 @@ def engine(prop, tier, seed):
                                         "broken_obligations": [b.obligation for b in broken]}, tag="_%d" % nviol)
         emit_violation(pid, path)
         nviol += 1
-    if nviol == 0 and not (spec_fails and reported) and (mism or broken):
+    # A broken theorem/build obligation is always reported (a known finding printed in the same run must not
+    # swallow it); a bare model/implementation mismatch is reported unless the run already explained itself
+    # through specification failures.
+    if nviol == 0 and (broken or (mism and not (spec_fails and reported))):
         first = cases[mism[0]["case"]] if mism else None
         obl = [b.obligation for b in broken] + (["K.%s.%s" % (pid, prop.k_names[0])] if mism else [])
         path = write_replay(pid, seed, {"property": pid, "kind": "obligation no longer checks; no failing input found",
